@@ -474,7 +474,6 @@ static void RegPrefix(
                 pInfo->SrcLine, sizeof(pInfo->SrcLine), "ld\tcf,%c.%u",
                 Reg8Names[SrcRegIndex], Opcode & 7U);
         break;
-    inv16:
     case 0xfa:
         if (SrcRegIndex > 3) {
             goto inv16;
@@ -515,6 +514,7 @@ static void RegPrefix(
                 pInfo->SrcLine, sizeof(pInfo->SrcLine), "jp\t%s", Reg16Names[SrcRegIndex]);
         pInfo->pRemark = "indirect jump, investigate here";
         break;
+    inv16:
     default:
         HexString(NumBuf, sizeof(NumBuf), Opcode, 2);
         HexString(NumBuf2, sizeof(NumBuf2), Address, 0);
